@@ -28,6 +28,7 @@ import (
 	"reflect"
 
 	"github.com/kstenerud/go-concise-encoding/configuration"
+	"github.com/kstenerud/go-concise-encoding/internal/common"
 )
 
 type recordTypeKey func(*Context, Builder)
@@ -46,7 +47,8 @@ type Context struct {
 	builderStack               []Builder
 
 	chunkedData             []byte
-	chunkRemainingLength    uint64
+	arrayElementBitWidth    int
+	chunkRemainingLength    uint64 // In bytes
 	moreChunksFollow        bool
 	arrayCompletionCallback func(*Context)
 
@@ -164,7 +166,8 @@ func (_this *Context) TryBuildFromCustomText(builder Builder, customType uint64,
 	}
 }
 
-func (_this *Context) BeginArray(arrayCompletionCallback func(*Context)) {
+func (_this *Context) BeginArray(elementBitWidth int, arrayCompletionCallback func(*Context)) {
+	_this.arrayElementBitWidth = elementBitWidth
 	_this.arrayCompletionCallback = arrayCompletionCallback
 	_this.chunkedData = _this.chunkedData[:0]
 }
@@ -172,7 +175,8 @@ func (_this *Context) ContinueMultiComponentArray(arrayCompletionCallback func(*
 	_this.arrayCompletionCallback = arrayCompletionCallback
 }
 func (_this *Context) BeginArrayChunk(length uint64, moreChunksFollow bool) {
-	_this.chunkRemainingLength = length
+	// Chunk lengths are in elements, but the data arrives as bytes.
+	_this.chunkRemainingLength = common.ElementCountToByteCount(_this.arrayElementBitWidth, length)
 	_this.moreChunksFollow = moreChunksFollow
 	if !_this.moreChunksFollow && _this.chunkRemainingLength == 0 {
 		_this.arrayCompletionCallback(_this)
